@@ -72,8 +72,8 @@ structure PfxCountsL (pfx : List (BitVec 8)) (m : MemOp) (pp : Nat) : Prop where
   c67 : pfx.count 0x67#8 ≤ 1
   ccont : pfx.contains 0x67#8 = (wantedAddrSize true m != 64)
 
-/-- rule side for legacy memory forms -/
-structure LegRuleM (rule : Rule) (nimm pp : Nat) : Prop where
+/-- rule side for legacy memory forms; `d` = the ModRM.reg digit of the form (8: none, `/r`) -/
+structure LegRuleMD (rule : Rule) (nimm pp d : Nat) : Prop where
   hs : rule.space = 0
   hpp8 : rule.pp &&& 8 = 0
   h66 : (rule.pp &&& 1 != 0 || rule.osz == 16) = (pp == 1)
@@ -82,13 +82,15 @@ structure LegRuleM (rule : Rule) (nimm pp : Nat) : Prop where
   hpplt : pp < 4
   hri : rule.ri = false
   hmk : rule.modKind = 1 ∨ rule.modKind = 3
-  hmr : rule.modr = 8
+  hmr : rule.modr = d
   hmrm : rule.modrm = 8
   himm : rule.immBytes = nimm
   hrel : rule.relBytes = 0
   hmoff : rule.moff = false
   ha67 : rule.a67 = false
   hrev : rule.immRev = false
+
+abbrev LegRuleM (rule : Rule) (nimm pp : Nat) : Prop := LegRuleMD rule nimm pp 8
 
 /-- legacy shape [reg, MEM] -/
 theorem leg_rm_mem_formOk (ctx : Spec.X86.Ctx) (rule : Rule) (p : Parsed) (mb : BitVec 8) (bytes pfx : List (BitVec 8)) (pp : Nat)
@@ -150,6 +152,74 @@ theorem leg_mr_mem_formOk (ctx : Spec.X86.Ctx) (rule : Rule) (p : Parsed) (mb : 
     | (cases segPrefix m.seg <;> rfl)
     | (refine Or.inr ?_; simpa using ccont)
     | (rcases hmk with h | h <;> omega)
+    | omega
+    | simp_all
+/-- legacy shape [MEM] (one memory operand; `/r` with a free reg field, or an opcode-extension digit `/d`) -/
+theorem leg_m_mem_formOk (ctx : Spec.X86.Ctx) (rule : Rule) (p : Parsed) (mb : BitVec 8) (bytes pfx : List (BitVec 8)) (pp d : Nat)
+    (f0 : FormOp) (m : MemOp)
+    (hm64 : ctx.mode64 = true) (hmode : (rule.modes &&& 2 != 0) = true)
+    (R : LegRuleMD rule 0 pp d) (hdig : d < 8 → bits mb 3 3 = d) (hf0 : f0.role = .rm)
+    (K : PfxCountsL pfx m pp) (hvs : vsibOf m = .none) (hbc : m.bcst = 0)
+    (hal : alignOps rule.oszEff rule.ops [.mem m] = some [(f0, some (.mem m))])
+    (hparse : parse true rule bytes = .ok p) (P : LegParsedM rule p mb pfx)
+    (hcm : checkMem ctx rule p m = .ok ()) :
+    formOk ctx rule [.mem m] {} bytes = true := by
+  obtain ⟨hvk, hpfx, hmodrm, hmod, hop, hw, hR'⟩ := P
+  obtain ⟨hs, hpp8, h66, hF3, hF2, hpplt, hri, hmk, hmr, hmrm, himm, hrel, hmoff, ha67, hrev⟩ := R
+  obtain ⟨c66, cF3, cF2, cF0, c9B, cseg, c67, ccont⟩ := K
+  have hleg : isLegacySpace rule = true := by simp [isLegacySpace, hs]
+  have hmod' : (bits mb 6 2 == 3) = false := by simpa using hmod
+  simp only [formOk, conds, hm64, hal, hparse, ↓reduceIte, hmode]
+  simp only [allOk_cons, allOk_append, decorConds, headConds, prefixConds, modrmConds, operandConds, opConds, tailConds, hf0,
+    allOk_nil, memOperandOf, implMemOf, usesVvvv, memDestOf, hcm, Spec.X86.ofExcept,
+    hasBcst, hleg, hri, hmodrm, hpfx, hvk, c66, cF3, cF2, cF0, c9B, cseg, ccont, h66, hF3, hF2, hR', List.foldl, List.find?]
+  simp [hop, hmod', hmr, hmrm, hs, hpp8, ha67, hbc, hvs, hm64, allOk]
+  and_intros
+  all_goals first
+    | exact hw
+    | exact c67
+    | rfl
+    | (cases segPrefix m.seg <;> rfl)
+    | (refine Or.inr ?_; simpa using ccont)
+    | (rcases hmk with h | h <;> omega)
+    | (intro hh; have := hdig hh; omega)
+    | (intro hh; exact hdig hh)
+    | omega
+    | simp_all
+/-- legacy shape [MEM, imm] (digit form, immediate of any width: its own conditions are the hypothesis `hic`) -/
+theorem leg_mi_mem_formOk (ctx : Spec.X86.Ctx) (rule : Rule) (p : Parsed) (mb : BitVec 8) (bytes pfx : List (BitVec 8)) (pp d nimm : Nat)
+    (f0 f3 : FormOp) (m : MemOp) (v : BitVec 64)
+    (hm64 : ctx.mode64 = true) (hmode : (rule.modes &&& 2 != 0) = true)
+    (R : LegRuleMD rule nimm pp d) (hdig : d < 8 → bits mb 3 3 = d) (hf0 : f0.role = .rm)
+    (hic : allOk (opConds ctx rule p 0 f3 (.imm v)).1 = true)
+    (K : PfxCountsL pfx m pp) (hvs : vsibOf m = .none) (hbc : m.bcst = 0)
+    (hal : alignOps rule.oszEff rule.ops [.mem m, .imm v] = some [(f0, some (.mem m)), (f3, some (.imm v))])
+    (hparse : parse true rule bytes = .ok p) (P : LegParsedM rule p mb pfx)
+    (hcm : checkMem ctx rule p m = .ok ()) :
+    formOk ctx rule [.mem m, .imm v] {} bytes = true := by
+  obtain ⟨hvk, hpfx, hmodrm, hmod, hop, hw, hR'⟩ := P
+  obtain ⟨hs, hpp8, h66, hF3, hF2, hpplt, hri, hmk, hmr, hmrm, himm, hrel, hmoff, ha67, hrev⟩ := R
+  obtain ⟨c66, cF3, cF2, cF0, c9B, cseg, c67, ccont⟩ := K
+  have hleg : isLegacySpace rule = true := by simp [isLegacySpace, hs]
+  have hmod' : (bits mb 6 2 == 3) = false := by simpa using hmod
+  have h2 : (opConds ctx rule p 0 f0 (.mem m)).2 = 0 := by simp [opConds, hf0, hmodrm]
+  simp only [formOk, conds, hm64, hal, hparse, ↓reduceIte, hmode]
+  simp only [operandConds, h2]
+  generalize opConds ctx rule p 0 f3 (.imm v) = X at hic ⊢
+  simp only [allOk_cons, allOk_append, decorConds, headConds, prefixConds, modrmConds, operandConds, opConds, tailConds, hf0,
+    allOk_nil, memOperandOf, implMemOf, usesVvvv, memDestOf, hcm, hic, Spec.X86.ofExcept,
+    hasBcst, hleg, hri, hmodrm, hpfx, hvk, c66, cF3, cF2, cF0, c9B, cseg, ccont, h66, hF3, hF2, hR', List.foldl, List.find?]
+  simp [hop, hmod', hmr, hmrm, hs, hpp8, ha67, hbc, hvs, hm64, allOk]
+  and_intros
+  all_goals first
+    | exact hw
+    | exact c67
+    | rfl
+    | (cases segPrefix m.seg <;> rfl)
+    | (refine Or.inr ?_; simpa using ccont)
+    | (rcases hmk with h | h <;> omega)
+    | (intro hh; have := hdig hh; omega)
+    | (intro hh; exact hdig hh)
     | omega
     | simp_all
 /-- legacy shape [reg, MEM, imm8] -/
